@@ -55,3 +55,97 @@ Example C16_example :
   run_log 24 [firstn 7 p; skipn 7 p ++ firstn 3 p; skipn 3 p ++ [255]]
   = [[CMore None]; [CDecoded p 17; CMore None]; [CDecoded p 21; CMore None]].
 Proof. vm_compute. reflexivity. Qed.
+
+(* ---- the Rust text itself: stun-agent/src/lib.rs StunPacketDecoder::new / StunPacketDecoder::decode (with StunPacket::new and
+   raw.rs MessageHeader::try_from) is translated by tools/rs2v.py from /repo's CURRENT source on every run (Generated/Code.v;
+   every slice, copy_from_slice, checked subtraction and usize addition carries its panic as an explicit GPanic outcome).
+   Proofs/CodeAgreeReasm.v relates the translated decoder state to the model state of the theorems above and proves that
+   the translated functions compute, result for result and field for field, what the model computes.  Hypotheses, stated:
+   buffer and chunk elements are bytes; len buffer + len chunk < 2^64 (Rust: every slice is shorter than 2^63). *)
+From Rustun Require Import Base.GRes Generated.Code.
+From Rustun Require Proofs.CodeAgreeReasm.
+
+(* the abstraction relation: the model state is (length of the caller's buffer, the first current_size bytes of it, expected size) *)
+Theorem C16_code_rep_def : forall g d, CodeAgreeReasm.Rep g d <->
+  (bufsz d = len (StunPacketDecoder_buffer g)
+   /\ acc d = take (StunPacketDecoder_current_size g) (StunPacketDecoder_buffer g)
+   /\ expd d = StunPacketDecoder_expected_size g
+   /\ StunPacketDecoder_current_size g <= len (StunPacketDecoder_buffer g)).
+Proof. exact CodeAgreeReasm.Rep_unfold. Qed.
+(* result correspondence: Result<StunPacketDecodedValue, StunPacketDecodedError> of the code against the model's outcome
+   (B = length of the caller's buffer; the packet the caller reads is buffer[..size]) *)
+Theorem C16_code_corr_def : forall B r o, CodeAgreeReasm.Corr B r o <->
+  match o with
+  | Decoded p c =>
+      exists b', r = ROk (StunPacketDecodedValue_Decoded ({| StunPacketInternal_buffer := b'; StunPacketInternal_size := len p |}, c))
+                 /\ take (len p) b' = p /\ len b' = B /\ bytes_ok b' = true
+  | More d' m =>
+      exists g', r = ROk (StunPacketDecodedValue_MoreBytesNeeded (g', m))
+                 /\ CodeAgreeReasm.Rep g' d' /\ bufsz d' = B /\ bytes_ok (StunPacketDecoder_buffer g') = true
+  | EInvalid c =>
+      exists b', r = RErr {| StunPacketDecodedError_error_type := 1; StunPacketDecodedError_buffer := b';
+                             StunPacketDecodedError_size := 20; StunPacketDecodedError_consumed := c |} /\ len b' = B
+  | ESmall c =>
+      exists b', r = RErr {| StunPacketDecodedError_error_type := 0; StunPacketDecodedError_buffer := b';
+                             StunPacketDecodedError_size := 20; StunPacketDecodedError_consumed := c |} /\ len b' = B
+  end.
+Proof. exact CodeAgreeReasm.Corr_unfold. Qed.
+
+(* StunPacketDecoder::new refuses exactly the buffers shorter than a header (SmallBuffer, the buffer handed back, size and
+   consumed 0); otherwise the decoder it returns represents the model's fresh decoder *)
+Theorem C16_code_new_is_model : forall buf,
+  gen_StunPacketDecoder_new buf
+  = match new_rs (len buf) with
+    | None => RErr {| StunPacketDecodedError_error_type := 0; StunPacketDecodedError_buffer := buf;
+                      StunPacketDecodedError_size := 0; StunPacketDecodedError_consumed := 0 |}
+    | Some _ => ROk {| StunPacketDecoder_buffer := buf; StunPacketDecoder_current_size := 0; StunPacketDecoder_expected_size := None |}
+    end
+  /\ (new_rs (len buf) = None <-> len buf < 20)
+  /\ (forall d, new_rs (len buf) = Some d ->
+        d = fresh (len buf)
+        /\ CodeAgreeReasm.Rep {| StunPacketDecoder_buffer := buf; StunPacketDecoder_current_size := 0; StunPacketDecoder_expected_size := None |} d
+        /\ DInv d /\ slices_ok d = true).
+Proof. exact CodeAgreeReasm.gen_new_agrees. Qed.
+
+(* StunPacketDecoder::decode: for every decoder state the model does not call a panic and every chunk, the translated code
+   returns (never GPanic, never GFuel) the model's outcome: the same packet bytes and consumed count, the same missing count
+   with a decoder that again represents the model's, the same error kind with size 20 and the same consumed count *)
+Theorem C16_code_decode_is_model : forall g d data,
+  CodeAgreeReasm.Rep g d -> slices_ok d = true ->
+  bytes_ok (StunPacketDecoder_buffer g) = true -> bytes_ok data = true ->
+  len (StunPacketDecoder_buffer g) + len data < 18446744073709551616 ->
+  feed_rs d data = Fine (feed d data)
+  /\ exists r, gen_StunPacketDecoder_decode g data = GOk r /\ CodeAgreeReasm.Corr (len (StunPacketDecoder_buffer g)) r (feed d data).
+Proof. exact CodeAgreeReasm.gen_decode_is_model. Qed.
+(* the same under the invariant the model proofs use (it holds of every decoder obtained from new and decode) *)
+Theorem C16_code_decode_under_invariant : forall g d data,
+  CodeAgreeReasm.Rep g d -> DInv d -> 20 <= bufsz d ->
+  bytes_ok (StunPacketDecoder_buffer g) = true -> bytes_ok data = true ->
+  len (StunPacketDecoder_buffer g) + len data < 18446744073709551616 ->
+  exists r, gen_StunPacketDecoder_decode g data = GOk r /\ CodeAgreeReasm.Corr (bufsz d) r (feed d data)
+            /\ (forall d' m, feed d data = More d' m -> DInv d').
+Proof. exact CodeAgreeReasm.gen_decode_inv. Qed.
+
+(* the caller's loop run over the translated functions (CodeAgreeReasm.gen_run_log: one logged outcome per decode() call, after
+   a packet the rest of the chunk goes to a decoder made by new from the buffer fb) yields, for every buffer and every
+   chunking, the model's log, which is the unchunked reading of the stream, and the monitor of the property accepts it *)
+Theorem C16_code_run_is_model : forall fb chunks, bytes_ok fb = true ->
+  Forall (fun c => bytes_ok c = true /\ len fb + len c < 18446744073709551616) chunks ->
+  CodeAgreeReasm.gen_run_log fb chunks = run_log (len fb) chunks.
+Proof. exact CodeAgreeReasm.gen_run_log_is_model. Qed.
+Theorem C16_code_run_is_unchunked_reading : forall fb chunks, 20 <= len fb -> bytes_ok fb = true ->
+  Forall (fun c => bytes_ok c = true /\ len fb + len c < 18446744073709551616) chunks ->
+  CodeAgreeReasm.gen_run_log fb chunks = spec_log (len fb) (Some []) chunks.
+Proof. exact CodeAgreeReasm.gen_run_log_is_unchunked_reading. Qed.
+Theorem C16_code_run_meets_property : forall fb chunks, bytes_ok fb = true ->
+  Forall (fun c => bytes_ok c = true /\ len fb + len c < 18446744073709551616) chunks ->
+  monitor_C16 (len fb) chunks (CodeAgreeReasm.gen_run_log fb chunks) = true.
+Proof. exact CodeAgreeReasm.gen_run_log_meets_C16. Qed.
+Print Assumptions C16_code_rep_def.
+Print Assumptions C16_code_corr_def.
+Print Assumptions C16_code_new_is_model.
+Print Assumptions C16_code_decode_is_model.
+Print Assumptions C16_code_decode_under_invariant.
+Print Assumptions C16_code_run_is_model.
+Print Assumptions C16_code_run_is_unchunked_reading.
+Print Assumptions C16_code_run_meets_property.
